@@ -63,6 +63,15 @@
                                  dropped when run returns with TERMINATE) and the input is nil.
       C06_blocked_until_cleared  hence, by induction, every later request of any list of such
                                  inputs.
+      FULL STRENGTH (no hypothesis on DIRTY) IS FALSE - new finding K-C06-dirty,
+      C06_blocked_refuted_dirty: when the request in which external code set TERMINATE fails
+      afterwards in Exec (e.g. the LOAD that set it rejects an over-long value), Flush does not run
+      and the session is saved with TERMINATE AND DIRTY; the next, blocked, request renders the
+      current page (template/menu lookups, OUTPUT "foo") and clears DIRTY.  Replayed on the real
+      engine (persisted flags 0x52 -> out "foo" -> 0x42).  What does hold without the DIRTY
+      hypothesis: C06_blocked_request_weak (cont = false, OK, world unchanged, the only ghost
+      events are renderings, stored session = old one with DIRTY cleared and code dropped) and
+      C06_terminated_stays_blocked (every request after that first one is blocked strictly).
    FALSE with an entry function (finding K-C20-first / K-C07-first class): C06_blocked_refuted_first
    - the entry function's VM returns at once, runFirst takes the STALE last cache value as exit
    text, clears TERMINATE in memory, and the blocked request outputs that value (and is not saved). *)
@@ -148,9 +157,9 @@ Proof. exact run_reload_reserved. Qed.
 Theorem C06_run_reserved : forall fuel rs sep lang b v v' b' s,
   run fuel rs sep lang b v = (v', b', s) ->
   forall f, f <= nonwriteable_flag_threshold ->
-    getf (v_st v') f = getf (v_st v) f \/ f = FLAG_READIN \/ f = FLAG_INMATCH \/ f = FLAG_WAIT
-    \/ (true = true /\ f = FLAG_DIRTY) \/ (f = FLAG_LOADFAIL /\ can_fail rs).
-Proof. exact run_rsv. Qed.
+    getf (v_st v') f = getf (v_st v) f \/ f = FLAG_READIN \/ f = FLAG_INMATCH \/ f = FLAG_WAIT \/ f = FLAG_DIRTY
+    \/ (f = FLAG_LOADFAIL /\ can_fail rs).
+Proof. exact run_reserved_frame. Qed.
 
 Theorem C06_reserved_never_changes : forall fuel rs sep lang b v v' b' s,
   run fuel rs sep lang b v = (v', b', s) -> getf (v_st v') FLAG_RESERVED = getf (v_st v) FLAG_RESERVED.
@@ -163,8 +172,10 @@ Proof. exact run_loadfail_needs_failure. Qed.
 
 Theorem C06_first_reserved : forall fuel c lang e e' r s,
   run_first fuel c lang e = (e', r, s) ->
-  rsv_step true (first_rsrc (match c_first c with Some sc => sc | None => [] end)) (v_st (e_v e)) (v_st (e_v e')).
-Proof. exact run_first_rsv. Qed.
+  forall f, f <= nonwriteable_flag_threshold ->
+    getf (v_st (e_v e')) f = getf (v_st (e_v e)) f \/ f = FLAG_READIN \/ f = FLAG_INMATCH \/ f = FLAG_WAIT \/ f = FLAG_DIRTY
+    \/ (f = FLAG_LOADFAIL /\ exists sc, c_first c = Some sc /\ existsb fr_fail sc = true).
+Proof. exact run_first_reserved_frame. Qed.
 
 Theorem C06_reserved_requests_ignored_run : forall rs rs', strip_rel rs rs' ->
   forall fuel sep lang b v, run fuel rs' sep lang b v = run fuel rs sep lang b v.
@@ -172,11 +183,11 @@ Proof. exact run_strip. Qed.
 
 Theorem C06_reserved_requests_ignored_request : forall a fuel c p input,
   request_persisted fuel (app_rsrc (strip_app a)) (strip_cfg c) p input = request_persisted fuel (app_rsrc a) c p input.
-Proof. intros. apply request_persisted_strip. apply strip_rel_app. Qed.
+Proof. exact request_persisted_strip_app. Qed.
 
 Theorem C06_reserved_requests_ignored_request_long : forall a fuel c e input,
   request_long fuel (app_rsrc (strip_app a)) (strip_cfg c) e input = request_long fuel (app_rsrc a) c e input.
-Proof. intros. apply request_long_strip. apply strip_rel_app. Qed.
+Proof. exact request_long_strip_app. Qed.
 
 Theorem C06_history_reserved_clear : forall fuel a c inputs p' resps,
   requests fuel (app_rsrc a) c (mkPw None [] [] false) inputs = (p', resps) -> store_clear p' FLAG_RESERVED.
@@ -228,27 +239,47 @@ Theorem C06_blocked_until_cleared : forall fuel rs c inputs p st ca,
      map (fun _ => mkResp false SOk [] FOk) inputs).
 Proof. exact blocked_until_cleared. Qed.
 
+Theorem C06_blocked_request_weak : forall fuel rs c p input st ca,
+  c_first c = None -> pw_store p = Some (st, ca) -> getf st FLAG_TERMINATE = true ->
+  accepted_b input = true -> (reset_req c input = false \/ s_path st = []) ->
+  exists p' resp, request_persisted (S fuel) rs c p input = (p', resp)
+    /\ r_cont resp = false /\ r_exec resp = SOk
+    /\ pw_w p' = pw_w p
+    /\ (exists l, pw_log p' = l ++ pw_log p /\ forallb is_render l = true)
+    /\ ((exists n, r_flush resp = FPanic n /\ pw_store p' = pw_store p) \/
+        (pw_store p' = Some (set_input_raw (set_code (resetf st FLAG_DIRTY) []) None, ca) /\ r_flush resp <> FFuel
+         /\ forall n, r_flush resp <> FPanic n)).
+Proof. exact blocked_request_weak. Qed.
+
+Theorem C06_terminated_stays_blocked : forall fuel rs c p input st ca p' resp inputs,
+  c_first c = None -> pw_store p = Some (st, ca) -> getf st FLAG_TERMINATE = true ->
+  accepted_b input = true -> (reset_req c input = false \/ s_path st = []) ->
+  request_persisted (S fuel) rs c p input = (p', resp) -> (forall n, r_flush resp <> FPanic n) ->
+  Forall (fun i => accepted_b i = true /\ (reset_req c i = false \/ s_path st = [])) inputs -> inputs <> [] ->
+  r_cont resp = false /\ r_exec resp = SOk /\ pw_w p' = pw_w p
+  /\ requests (S fuel) rs c p' inputs
+     = (mkPw (Some (set_input_raw (set_code (resetf st FLAG_DIRTY) []) None, ca)) (pw_w p') (pw_log p') (pw_taint p'),
+        map (fun _ => mkResp false SOk [] FOk) inputs).
+Proof. exact terminated_stays_blocked. Qed.
+
+(* finding K-C06-dirty: TERMINATE and DIRTY both stored; the blocked request outputs the page *)
+Theorem C06_blocked_refuted_dirty :
+  exists rs c p input st ca,
+    c_first c = None /\ pw_store p = Some (st, ca)
+    /\ getf st FLAG_TERMINATE = true /\ getf st FLAG_DIRTY = true
+    /\ accepted_b input = true /\ reset_req c input = false
+    /\ p = fst (requests 100 rs c (mkPw None [] [] false) [[]; s2b "1"])
+    /\ snd (request_persisted 100 rs c p input) = mkResp false SOk (s2b "foo") FOk
+    /\ pw_log (fst (request_persisted 100 rs c p input)) = EvRender (s2b "foo") 0 None :: pw_log p
+    /\ snd (request_persisted 100 rs c (fst (request_persisted 100 rs c p input)) input) = mkResp false SOk [] FOk.
+Proof. exact blocked_refuted_dirty. Qed.
+
 Theorem C06_accepted_is_not_refused : forall i, accepted_b i = negb (EngineMon.refused_b i).
 Proof. exact accepted_b_not_refused. Qed.
 
 (* ---- witnesses ---------------------------------------------------------------------------------- *)
-Definition nd (name : string) (p : list instr) : bytes * bytes := (s2b name, encode_prog p).
-Definition catch_node := nd "_catch" [IHalt; IInCmp (s2b "_") (s2b "*")].
-Definition fr (content : string) (set : list N) : fres := mkFres (s2b content) false 0 set [] false.
-Definition pw0 : pworld := mkPw None [] [] false.
-
-(* corpus "terminate-blocked" (go/cmd/vh/engine.go engineCorpus): aa sets TERMINATE and client flag 9 *)
-Definition app_term : app :=
-  mkApp [nd "root" [IHalt; IInCmp (s2b "foo") (s2b "1")];
-         nd "foo" [ILoad (s2b "aa") 10; IHalt; IInCmp (s2b "_") (s2b "0")]; catch_node]
-        [(s2b "root", s2b "root"); (s2b "foo", s2b "foo"); (s2b "_catch", s2b "catch")]
-        [] [(s2b "aa", [fr "t" [6; 9]])].
-Definition cfg_term : config := mkCfg 0 [] 2 0 [] [] false None.
-Definition rs_term : rsrc := app_rsrc app_term.
-(* the session after the requests "" and "1": at root/foo, TERMINATE and flag 9 set *)
-Definition p_term : pworld := fst (requests 100 rs_term cfg_term pw0 [[]; s2b "1"]).
-Definition st_term : state := match pw_store p_term with Some (s, _) => s | None => new_state 0 end.
-Definition ca_term : cache := match pw_store p_term with Some (_, c) => c | None => new_cache 0 end.
+(* corpus "terminate-blocked" (FlagProofs.app_term): aa sets TERMINATE and client flag 9; p_term is the
+   session after the requests "" and "1": at root/foo, TERMINATE and flag 9 set *)
 
 (* the hypotheses of C06_blocked_request / C06_blocked_until_cleared are met by a reachable session *)
 Example C06_blocked_nonvacuous :
@@ -263,7 +294,6 @@ Proof. vm_compute. repeat split; reflexivity. Qed.
 
 (* the same session served by an engine WITH an entry function: the blocked request outputs the
    stale last value "t" *)
-Definition cfg_term_first : config := mkCfg 0 [] 2 0 [] [] false (Some [fr "hello" []]).
 Theorem C06_blocked_refuted_first :
   exists rs c p input st ca,
     c_first c <> None /\ pw_store p = Some (st, ca)
@@ -272,21 +302,15 @@ Theorem C06_blocked_refuted_first :
     /\ r_out (snd (request_persisted 100 rs c p input)) = s2b "t"
     /\ r_cont (snd (request_persisted 100 rs c p input)) = false
     /\ pw_store (fst (request_persisted 100 rs c p input)) = pw_store p.
-Proof.
-  exists rs_term, cfg_term_first, p_term, (s2b "0"), st_term, ca_term.
-  vm_compute. repeat split; try reflexivity. discriminate.
-Qed.
+Proof. exact blocked_refuted_first. Qed.
 
 (* ResetOnEmptyInput: an empty input restarts the terminated session (by design; excluded by reset_req) *)
-Definition cfg_term_reset : config := mkCfg 0 [] 2 0 [] [] true None.
 Example C06_reset_on_empty_restarts :
   reset_req cfg_term_reset [] = true
   /\ snd (request_persisted 100 rs_term cfg_term_reset p_term []) = mkResp true SOk (s2b "root") FOk.
 Proof. vm_compute. split; reflexivity. Qed.
 
 (* CATCH / CROAK on a concrete machine: client flag 8 set, at node root *)
-Definition st_c : state := setf (set_path_idx (new_state 2) [s2b "root"] 0) 8.
-Definition v_c : vmst := mkVm st_c (cache_push (new_cache 0)) (new_vm_page 0 []) [] [] false.
 Example C06_catch_nonvacuous :
   flag_in_range st_c 8 = true /\ flag_in_range st_c 9 = true /\ flag_in_range st_c 10 = false
   /\ (let '(v', b, s) := run_catch rs_term (s2b "foo") 8 true [1; 2] v_c in
@@ -311,8 +335,6 @@ Example C06_croak_nonvacuous :
 Proof. vm_compute. repeat split; reflexivity. Qed.
 
 (* a function asking for every reserved flag, a client flag and an out-of-range one *)
-Definition rs_greedy (set reset : list N) : rsrc :=
-  app_rsrc (mkApp [] [] [] [(s2b "gg", [mkFres (s2b "x") false 0 set reset false])]).
 Example C06_external_nonvacuous :
   (let '(v', _, s) := refresh (rs_greedy [0; 1; 2; 3; 4; 5; 6; 7; 9] [8]) None (s2b "gg") v_c in
    (map (getf (v_st v')) [0; 1; 2; 3; 4; 5; 6; 7; 8; 9], s)
@@ -346,6 +368,9 @@ Print Assumptions C06_writeable_out_of_range_panics.
 Print Assumptions C06_terminate_blocks_run.
 Print Assumptions C06_blocked_request.
 Print Assumptions C06_blocked_until_cleared.
+Print Assumptions C06_blocked_request_weak.
+Print Assumptions C06_terminated_stays_blocked.
+Print Assumptions C06_blocked_refuted_dirty.
 Print Assumptions C06_accepted_is_not_refused.
 Print Assumptions C06_blocked_refuted_first.
 Print Assumptions C06_blocked_nonvacuous.
